@@ -94,13 +94,86 @@ def targets():
                           doc="NegativeMomentum(ArraySum(p, q))", code_only=True, kind="pq", compound="p + q")
     t["metricSum"] = dict(obj=lz.MinkowskiMetric(psum), args=[p, q], kinds=kpq, params=[], shape=(4, 4),
                           doc="MinkowskiMetric(ArraySum(p, q))", code_only=True, kind="pq", compound="p + q")
+    # ---- WRAPPED momenta: `BoostMatrix.evaluate()` / `as_explicit()` and the printers see the momentum
+    # argument as an expression TREE, so anything that looks at the kind of that tree (unwrapping a
+    # NegativeMomentum, distributing over an ArraySum, short-cutting an already boosted momentum) is only
+    # exercised by arguments that ARE such trees: space inversion applied twice and three times, inversion
+    # of a sum, sum of inversions, a sum with one inverted term, inversion of a sum containing an inversion,
+    # and the momentum boosted by another BoostMatrix (what compute_boost_chain builds). For each of them the
+    # explicit matrix (`…Ex`) and the generated code (`…Code0/1`) are regenerated; theorems: each equals
+    # `boostEx` AT THE VALUE of the argument. `share=True`: repeated subterms are named, not rewritten.
+    N = lz.NegativeMomentum
+    neg = lambda v: [v[0], -v[1], -v[2], -v[3]]  # noqa: E731
+    vsum = lambda pt: [pt[i] + pt[i + 4] for i in range(4)]  # noqa: E731
+    vmix = lambda pt: [pt[0] + pt[4], *[pt[i] - pt[i + 4] for i in (1, 2, 3)]]  # noqa: E731
+
+    def wrapped(name, obj, doc, argval, *, two, shape=(4, 4), code_only=False, **kw):
+        t[name] = dict(obj=obj, args=[p, q] if two else [p], kinds=kpq if two else kp,
+                       params=[*P4, *Q4] if two else P4, shape=shape, doc=doc, code_only=code_only,
+                       kind="w2" if two else "w1", argval=argval, share=True, wrapped=True, **kw)
+
+    wrapped("boostNeg2", lz.BoostMatrix(N(N(p))), "BoostMatrix(NegativeMomentum(NegativeMomentum(p)))",
+            lambda pt: list(pt), two=False)
+    # cse=False is left out for three inversions: the printer repeats the whole nested argument inside every
+    # `len(..)` of the metric arrays (8 MB of source, a minute of lambdify)
+    wrapped("boostNeg3", lz.BoostMatrix(N(N(N(p)))), "BoostMatrix(NegativeMomentum(NegativeMomentum(NegativeMomentum(p))))",
+            lambda pt: neg(pt), two=False, cse_settings=(True,))
+    wrapped("boostNegSum", lz.BoostMatrix(N(psum)), "BoostMatrix(NegativeMomentum(ArraySum(p, q)))",
+            lambda pt: neg(vsum(pt)), two=True)
+    wrapped("boostSumNeg", lz.BoostMatrix(ArraySum(N(p), N(q))), "BoostMatrix(ArraySum(NegativeMomentum(p), NegativeMomentum(q)))",
+            lambda pt: neg(vsum(pt)), two=True)
+    wrapped("boostSumMix", lz.BoostMatrix(ArraySum(p, N(q))), "BoostMatrix(ArraySum(p, NegativeMomentum(q)))",
+            vmix, two=True)
+    wrapped("boostNegMix", lz.BoostMatrix(N(ArraySum(N(p), q))), "BoostMatrix(NegativeMomentum(ArraySum(NegativeMomentum(p), q)))",
+            vmix, two=True)
+    wrapped("negMom2", N(N(p)), "NegativeMomentum(NegativeMomentum(p))", lambda pt: list(pt), two=False,
+            shape=(4,), code_only=True)
+    wrapped("negMom3", N(N(N(p))), "NegativeMomentum(NegativeMomentum(NegativeMomentum(p)))", lambda pt: list(pt),
+            two=False, shape=(4,), code_only=True, cse_settings=(True,))
+    wrapped("sumNeg", ArraySum(N(p), N(q)), "ArraySum(NegativeMomentum(p), NegativeMomentum(q))", vsum, two=True,
+            shape=(4,), code_only=True)
+    wrapped("negMix", N(ArraySum(N(p), q)), "NegativeMomentum(ArraySum(NegativeMomentum(p), q))", vmix, two=True,
+            shape=(4,), code_only=True)
+    # a momentum that is itself the product of another boost with a momentum (compute_boost_chain)
+    wrapped("boostChain", lz.BoostMatrix(ArrayMultiplication(lz.BoostMatrix(q), p)),
+            "BoostMatrix(ArrayMultiplication(BoostMatrix(q), p))", lambda pt: boosted(pt[4:], pt[:4]), two=True)
+    # the inverse-boost statement as ONE generated function: B(NegativeMomentum(k)) B(k), for k = p and for the
+    # already inverted k = NegativeMomentum(p) (the first factor of compute_wigner_rotation_matrix)
+    wrapped("invPair", MatrixMultiplication(lz.BoostMatrix(N(p)), lz.BoostMatrix(p)),
+            "MatrixMultiplication(BoostMatrix(NegativeMomentum(p)), BoostMatrix(p))", lambda pt: list(pt), two=False,
+            code_only=True)
+    wrapped("invPairNeg", MatrixMultiplication(lz.BoostMatrix(N(N(p))), lz.BoostMatrix(N(p))),
+            "MatrixMultiplication(BoostMatrix(NegativeMomentum(NegativeMomentum(p))), BoostMatrix(NegativeMomentum(p)))",
+            lambda pt: list(pt), two=False, code_only=True)
     return t
 
 
+_LAMBDIFIED: dict = {}
+
+
+def boosted(q, p):
+    """B(q) p in plain floats (only used to judge the conditioning of a validation point)"""
+    Eq, qx, qy, qz = q
+    m = math.sqrt(max(Eq * Eq - qx * qx - qy * qy - qz * qz, 0.0)) or float("nan")
+    g = Eq / m
+    bp = (qx * p[1] + qy * p[2] + qz * p[3]) / Eq  # beta . p
+    b2 = (qx * qx + qy * qy + qz * qz) / (Eq * Eq)
+    k = (g - 1) * bp / b2 - g * p[0] if b2 > 0 else 0.0
+    return [g * (p[0] - bp), *[p[i + 1] + k * c / Eq for i, c in enumerate((qx, qy, qz))]]
+
+
 def lambdified(tgt, cse: bool):
+    """the real generated function (cached per run: nested arguments make lambdify with cse=False slow)"""
     import sympy as sp
 
-    return sp.lambdify(tgt["args"], tgt["obj"].doit(), "numpy", cse=cse)
+    key = (tgt["doc"], cse)
+    if key not in _LAMBDIFIED:
+        _LAMBDIFIED[key] = sp.lambdify(tgt["args"], tgt["obj"].doit(), "numpy", cse=cse)
+    return _LAMBDIFIED[key]
+
+
+def cse_settings(tgt) -> tuple:
+    return tgt.get("cse_settings", (False, True))
 
 
 def _entries_of(val, shape):
@@ -119,22 +192,27 @@ def build_families():
     fams = []
     facts = {"einsum": {}}
     guards = []
+    _LAMBDIFIED.clear()
     for name, tgt in targets().items():
+        share = bool(tgt.get("share"))
         if not tgt.get("code_only"):
-            et = X.ExplicitTranslator()
+            et = X.ExplicitTranslator({"p": tuple(P4), "q": tuple(Q4)}, vec_prefix=f"{name}Ex" if share else None,
+                                      params=tgt["params"])
             m = et.matrix(tgt["obj"])
             fams.append(X.Family(f"{name}Ex", tgt["params"], (4, 4), [t for r in m for t in r],
-                                 doc=f"{tgt['doc']}.as_explicit(), per event"))
+                                 doc=f"{tgt['doc']}.as_explicit(), per event", share=share, vecs=et.vec_defs))
             guards += [f"{name}Ex: {g}" for g in dict.fromkeys(et.guards)]
-        for cse in (False, True):
+        for cse in cse_settings(tgt):
             try:
                 src = inspect.getsource(lambdified(tgt, cse))
             except Exception as e:  # noqa: BLE001
                 raise core.Untranslatable(f"lambdify({tgt['doc']}, cse={cse}) failed: {e!r}") from e
-            code = X.NumpyCode(src, tgt["kinds"])
+            code = X.NumpyCode(src, tgt["kinds"], vec_prefix=f"{name}Code{int(cse)}" if share else None,
+                               params=tgt["params"])
             fams.append(X.Family(f"{name}Code{int(cse)}", tgt["params"], tgt["shape"],
                                  _entries_of(code.result, tgt["shape"]),
-                                 doc=f"numpy code generated by lambdify({tgt['doc']}.doit(), cse={cse}), per event"))
+                                 doc=f"numpy code generated by lambdify({tgt['doc']}.doit(), cse={cse}), per event",
+                                 share=share, vecs=code.vec_defs))
             if code.einsum_subscripts:
                 facts["einsum"][f"{name}Code{int(cse)}"] = sorted(set(code.einsum_subscripts))
     return fams, facts, guards
@@ -172,6 +250,13 @@ def _points(kind: str, rng, n: int):
             p, _, _ = O.momentum(rng, (-2.0, 1.5))
             q, _, _ = O.momentum(rng, (-2.0, 1.5))
             pts.append([*p, *q])
+        elif kind == "w1":
+            p, _, _ = O.momentum(rng, (-3.0, 2.0))
+            pts.append(p)
+        elif kind == "w2":
+            p, _, _ = O.momentum(rng, (-2.0, 1.0))
+            q, _, _ = O.momentum(rng, (-2.0, 1.0))
+            pts.append([*p, *q])
     return pts
 
 
@@ -184,8 +269,19 @@ def _kind_of(tgt) -> str:
     return {"E": "p", "beta": "beta"}.get(ps[0], {1: "a", 2: "ab", 6: "abp"}.get(len(ps)))
 
 
-def _cond(kind: str, pt) -> float:
+def _gamma2(v) -> float:
+    E, x, y, z = v
+    m2 = E * E - (x * x + y * y + z * z)
+    return E * E / m2 if m2 > 0 and math.isfinite(m2) else float("inf")
+
+
+def _cond(kind: str, pt, tgt=None) -> float:
     """gamma^2 of the point (conditioning of the boost formulas)."""
+    if tgt is not None and "argval" in tgt:  # wrapped momenta: gamma^2 at the VALUE of the argument
+        g2 = _gamma2(tgt["argval"](pt))
+        if len(pt) == 8:  # noqa: PLR2004  (a boosted momentum inherits the rounding of the inner boost)
+            g2 *= max(_gamma2(pt[:4]), _gamma2(pt[4:]))
+        return g2
     if kind in ("p", "abp"):
         E, x, y, z = pt[-4:]
         m2 = E * E - (x * x + y * y + z * z)
@@ -223,7 +319,7 @@ def validate(chk, families, rng, n: int):  # noqa: C901, PLR0912, PLR0915
     lines = []
     for name, tgt in tg.items():
         kind, pts = pts_by_target[name]
-        for variant in (["Ex"] if not tgt.get("code_only") else []) + ["Code0", "Code1"]:
+        for variant in (["Ex"] if not tgt.get("code_only") else []) + [f"Code{int(c)}" for c in cse_settings(tgt)]:
             fam = fam_by_name[name + variant]
             for pt in pts:
                 args = [] if not fam.params else pt
@@ -239,15 +335,28 @@ def validate(chk, families, rng, n: int):  # noqa: C901, PLR0912, PLR0915
     for name, tgt in tg.items():
         kind, pts = pts_by_target[name]
         arr = np.array(pts, dtype=float)
-        if kind in ("p",):
+        if kind in ("p", "w1"):
             arrays = [arr]
-        elif kind == "pq":
+        elif kind in ("pq", "w2"):
             arrays = [arr[:, :4], arr[:, 4:]]
         elif kind == "abp":
             arrays = [arr[:, 0], arr[:, 1], arr[:, 2:]]
         else:
             arrays = [arr[:, i] for i in range(arr.shape[1])]
-        if not tgt.get("code_only"):
+        if not tgt.get("code_only") and tgt.get("wrapped"):
+            # the library's own explicit matrix, lambdified as a whole with cse (entry by entry without cse the
+            # nested arguments print exponentially long)
+            import sympy as sp
+
+            fx = sp.lambdify(tgt["args"], tgt["obj"].as_explicit().doit(), "numpy", cse=True)
+            with np.errstate(all="ignore"):
+                rows = fx(*arrays)
+            ex = np.empty((len(pts), 4, 4), dtype=complex)
+            for i in range(4):
+                for j in range(4):
+                    ex[:, i, j] = np.broadcast_to(np.asarray(rows[i][j], dtype=complex), (len(pts),))
+            real[(name, "Ex")] = ex
+        elif not tgt.get("code_only"):
             key = {"boostNeg": None}.get(name, name)
             if key is not None and key in rc.explicit:
                 real[(name, "Ex")] = rc.explicit_eval(key, *arrays)
@@ -261,7 +370,7 @@ def validate(chk, families, rng, n: int):  # noqa: C901, PLR0912, PLR0915
                     for k, fn in enumerate(ent):
                         ex[:, k // 4, k % 4] = np.broadcast_to(np.asarray(fn(*arrays), dtype=complex), (len(pts),))
                 real[(name, "Ex")] = ex
-        for cse in (False, True):
+        for cse in cse_settings(tgt):
             f = lambdified(tgt, cse)
             sizes = O.batches(rng, len(pts), 16)
             res = []
@@ -288,7 +397,7 @@ def validate(chk, families, rng, n: int):  # noqa: C901, PLR0912, PLR0915
             ref = ref.real
         ref_vals = [float(v) for v in ref.reshape(-1)]
         kind = pts_by_target[name][0]
-        g2 = _cond(kind, pt)
+        g2 = _cond(kind, pt, tg[name])
         scale = max(1.0, *[abs(v) for v in ref_vals if math.isfinite(v)] or [1.0])
         tol = 1e-12 * (1.0 + g2) * scale
         ok = len(lean_vals) == len(ref_vals)
